@@ -2,6 +2,7 @@
 the step bound of `run_terminates` on observed runs. -/
 import FuelVerif.Basic.Loop
 import FuelVerif.Gen.VmGas
+import FuelVerif.Gen.ReceiptsCtx
 namespace FuelVerif.Drv.C29
 open FuelVerif FuelVerif.Gen
 
@@ -22,6 +23,15 @@ def handle : List String → String
     match gasLimit.toNat?, steps.toNat?, used.toNat? with
     | some g, some s, some u => if s ≤ g + 1 ∧ u ≤ g then "ok" else "violates-bound"
     | _, _, _ => "bad-op"
+  | ["tail", len, k2, k1] =>
+    -- the reserved-slot rule of `ReceiptsCtx::push` on the final receipt list
+    match len.toNat? with
+    | some n =>
+      let mx := FuelVerif.Gen.ReceiptsCtx.maxReceipts
+      let ok2 := if n > mx - 2 then k2 == "Panic" || k2 == "ScriptResult" else k2 == "-"
+      let ok1 := if n > mx - 1 then k1 == "ScriptResult" else k1 == "-"
+      if n ≤ mx ∧ ok2 ∧ ok1 then "ok" else "reserved-slot-rule-violated"
+    | none => "bad-op"
   | _ => "bad-op"
 
 def run : IO Unit := lineLoopPure handle
